@@ -6,12 +6,12 @@
 (* Numbers are exact rationals [k |-> "rat", n, d] (inputs are small integers *)
 (* or halves); strings carry their characters in field cs.                   *)
 (* Evaluation yields a value, NullV, or ErrV (outside the domain).           *)
-(*   t = "col" c | "path" p | "num" n d | "str" cs | "neg" a | "bin" op a b   *)
+(*   t = "col" c | "path" p | "path2" c parts | "num" n d | "str" cs | "neg" a | "bin" op a b   *)
 (*     | "cmp" op a b | "and" a b | "or" a b | "not" a | "par" a             *)
 (*     | "case" whens else (searched) | "scase" a whens else (simple)        *)
 (*     | "isnull" a neg | "like" a pat neg | "fn" f args                      *)
 (***************************************************************************)
-EXTENDS SV, Like
+EXTENDS FieldPath, Like
 
 NullV == [k |-> "null"]
 ErrV  == [k |-> "err"]
@@ -158,6 +158,7 @@ RECURSIVE Eval(_, _), CaseEval(_, _, _, _), SCaseEval(_, _, _, _, _)
 Eval(e, row) ==
   CASE e.t = "col"  -> FromSV(Col(row, e.c))
     [] e.t = "path" -> FromSV(ColPath(row, e.p))
+    [] e.t = "path2" -> FromSV(ColPath2(row, e.c, e.parts))      \* general nested access (lib/FieldPath): .name ['key'] [i] [-i]
     [] e.t = "num"  -> Norm(e.n, e.d)
     [] e.t = "str"  -> StrR(e.cs)
     [] e.t = "par"  -> Eval(e.a, row)
